@@ -365,6 +365,16 @@ var Hostile = [][]byte{
 }
 
 func init() {
+	// declared chunk lengths 0..3 with the identifier in every width
+	for l := 0; l <= 3; l++ {
+		for _, mid := range [][]byte{{0x00}, {0x01, 0x00}, {0x03, 0x00, 0x00, 0x00}, {0x02}, {0x05, 0x00}, {0x07, 0x00, 0x00, 0x00}} {
+			b := append([]byte{0x89, 'I', 'V', 'G', 0x02, byte(l) << 1}, mid...)
+			Hostile = append(Hostile, append(b, 0x50, 0x50, 0xb0, 0xb0, 0xc0, 0x80, 0x80, 0xe1))
+		}
+	}
+}
+
+func init() {
 	// two metadata chunks whose declared lengths are both wrong, by every pair of small amounts
 	// (also pairs that sum to zero, so that the metadata as a whole ends where it should)
 	for d1 := -3; d1 <= 3; d1++ {
